@@ -1,6 +1,7 @@
 package leg
 
 import (
+	"reflect"
 	"strconv"
 	"encoding/hex"
 	"bytes"
@@ -651,7 +652,70 @@ func genC14legacy(c *lp.Ctx) {
 // genC18legacy: C18 on tries loaded from legacy streams of every layout ("KeyCnt is preserved when an equivalent
 // legacy stream is loaded", "unchanged by a marshal round trip"): the battery's Stat checks on key sets with keys
 // that are prefixes of other keys (old nodes that are inner node AND leaf) and ordinary ones.
+// fixturesStat: every ARCHIVED file (bytes written by the old releases themselves, not by the reconstructed
+// writers) loaded by the real loader: Stat reports the data set's key count, rows consistent, and the same report
+// after a marshal round trip.  Go side only (no script lines): all sizes in every tier.
+func fixturesStat(c *lp.Ctx) {
+	repo := repoDir()
+	fx, err := ListFixtures(repo)
+	if err != nil {
+		c.Violate(lp.Violation{What: "cannot list fixtures: " + err.Error()})
+		return
+	}
+	for _, f := range fx {
+		keys := DatasetKeys(f.Dataset)
+		stream, err := os.ReadFile(filepath.Join(repo, "trie", "testdata", f.File))
+		if err != nil {
+			continue
+		}
+		bad := func() (bad string) {
+			defer func() {
+				if r := recover(); r != nil {
+					bad = fmt.Sprintf("panic: %v", r)
+				}
+			}()
+			st, _ := slim.NewSlimTrie(encode.I32{}, nil, nil)
+			if err := st.Unmarshal(stream); err != nil {
+				return "load: " + err.Error()
+			}
+			s := st.Stat()
+			if int(s.KeyCnt) != len(keys) {
+				return fmt.Sprintf("KeyCnt = %d, the data set has %d keys", s.KeyCnt, len(keys))
+			}
+			var pt, pi, pl int32
+			for k, row := range s.Levels {
+				if row.Total != row.Inner+row.Leaf || row.Total < pt || row.Inner < pi || row.Leaf < pl {
+					return fmt.Sprintf("level row %d inconsistent: %+v", k, s.Levels)
+				}
+				pt, pi, pl = row.Total, row.Inner, row.Leaf
+			}
+			if len(keys) > 0 && (pt != s.NodeCnt || pl != s.KeyCnt) {
+				return fmt.Sprintf("last level row is not the totals: %+v", *s)
+			}
+			b, err := st.Marshal()
+			if err != nil {
+				return "marshal: " + err.Error()
+			}
+			st2, _ := slim.NewSlimTrie(encode.I32{}, nil, nil)
+			if err := st2.Unmarshal(b); err != nil {
+				return "reload: " + err.Error()
+			}
+			if !reflect.DeepEqual(*st2.Stat(), *s) {
+				return fmt.Sprintf("Stat changed by a marshal round trip: %+v -> %+v", *s, *st2.Stat())
+			}
+			return ""
+		}()
+		c.Case("fixture-stat|"+f.File, true)
+		c.Hit("fixture:stat-go-side")
+		if bad != "" {
+			c.Violate(lp.Violation{What: "Stat of the archived file " + f.File + ": " + bad,
+				Script: []string{"Unmarshal(trie/testdata/" + f.File + "); Stat()"}, Expected: fmt.Sprintf("KeyCnt=%d, consistent rows, stable across a round trip", len(keys)), Got: bad})
+		}
+	}
+}
+
 func genC18legacy(c *lp.Ctx) {
+	fixturesStat(c)
 	all := append(append([]string{}, Variants3...), Variants10...)
 	for it := 0; it < c.Pick(40, 200); it++ {
 		var ks gen.KeySet
